@@ -48,6 +48,7 @@ def main():
     ap.add_argument("--replay")
     ap.add_argument("--no-build", action="store_true")
     ap.add_argument("--no-shrink", action="store_true")
+    ap.add_argument("--no-corpus", action="store_true", help="skip the regression corpus (used when looking for a fresh witness)")
     ap.add_argument("--no-evidence", action="store_true", help="do not rewrite evidence/<id>.json (runs against a deliberately modified tree)")
     ap.add_argument("--max-report", type=int, default=5)
     ap.add_argument("--summary", action="store_true")
@@ -130,6 +131,21 @@ def main():
         absorb(plan, res)
         base_results.append((plan, res))
     nbase = len(bases)
+    # regression corpus: minimised replays of violations found earlier (every repaired defect and every seeded change that
+    # a batch once missed) are re-executed by every run of the property, whatever the seed
+    cjobs = []
+    cdir = os.path.join(engine.VERIF, "corpus", prop)
+    if os.path.isdir(cdir) and not a.no_corpus:
+        for name in sorted(os.listdir(cdir)):
+            if name.endswith(".json"):
+                cp = json.load(open(os.path.join(cdir, name)))
+                for key in ("id", "root", "expect"):
+                    cp.pop(key, None)
+                cp["corpus"] = name
+                cjobs.append((cp, dict(opts_base, **(cp.get("opts") or {}))))
+    for (plan, _), res in engine.run_jobs(cjobs):
+        absorb(plan, res)
+    stats["corpus_plans"] = len(cjobs)
     # variants (crash points, schedule variants, fault variants)
     if hasattr(prof, "variants"):
         vjobs = []
